@@ -29,6 +29,8 @@ import (
 	"math"
 	"net/netip"
 	"sort"
+	"sync"
+	"sync/atomic"
 	"time"
 
 	"github.com/IrineSistiana/mosproxy/internal/limiter"
@@ -435,6 +437,7 @@ func c15InProcess(c *Ctx) {
 	}
 	n := c.N(2000, 100000)
 	parallelFor(n, 0, func() bool { return c.ViolationCount() >= 20 }, func(idx int) { c15One(c, idx) })
+	c15Concurrent(c)
 }
 
 func c15One(c *Ctx, idx int) {
@@ -643,4 +646,78 @@ func c15Word(b bool) string {
 		return "ADMITTED"
 	}
 	return "REFUSED"
+}
+
+// c15Concurrent: first contact of a not-yet-tracked subnet from several goroutines at the same
+// instant (same virtual time): the admitted cost must not exceed the burst - every goroutine must
+// draw from one bucket.
+func c15Concurrent(c *Ctx) {
+	rounds := c.N(4000, 100000)
+	var admittedTotal, refusedTotal int64
+	var mu sync.Mutex
+	parallelFor(rounds/50, 4, func() bool { return c.ViolationCount() >= 5 }, func(batch int) {
+		r := gen.New(c.Seed, "c15conc", batch)
+		burst := r.Range(1, 12)
+		opts := limiter.ClientLimiterOpts{Limit: float64(r.Range(1, 50)), Burst: burst}
+		if r.Bool() {
+			opts.V4Mask, opts.V6Mask = 24, 48
+		}
+		lim := limiter.NewClientLimiter(opts)
+		defer lim.Close()
+		now := time.Now()
+		for k := 0; k < 50; k++ {
+			var base netip.Addr
+			v6 := r.P(0.3)
+			if v6 {
+				var b [16]byte
+				r.Read(b[:])
+				b[0] = 0x20
+				base = netip.AddrFrom16(b)
+			} else {
+				base = netip.AddrFrom4([4]byte{byte(r.Range(1, 223)), byte(batch), byte(batch >> 8), byte(k)})
+				// every (batch, k) is a fresh /24
+				base = netip.AddrFrom4([4]byte{byte(1 + (batch*50+k)>>16&0x7f), byte((batch*50 + k) >> 8), byte(batch*50 + k), 1})
+			}
+			g := r.Range(4, 16)
+			var wg, ready sync.WaitGroup
+			start := make(chan struct{})
+			var admitted atomic.Int64
+			for i := 0; i < g; i++ {
+				wg.Add(1)
+				ready.Add(1)
+				addr := base
+				if !v6 {
+					a4 := base.As4()
+					a4[3] = byte(1 + i)
+					addr = netip.AddrFrom4(a4)
+				}
+				go func() {
+					defer wg.Done()
+					ready.Done()
+					<-start
+					if lim.AllowN(addr, now, 1) {
+						admitted.Add(1)
+					}
+				}()
+			}
+			ready.Wait()
+			close(start)
+			wg.Wait()
+			a := admitted.Load()
+			mu.Lock()
+			admittedTotal += a
+			refusedTotal += int64(g) - a
+			mu.Unlock()
+			if a > int64(burst) {
+				c.Violation("concurrent-first-contact", fmt.Sprintf("%d goroutines queried a fresh subnet (%s) at the same instant: %d queries of cost 1 were admitted with burst %d (several buckets were created for one subnet)", g, base, a, burst),
+					map[string]any{"fn": "c15Concurrent", "goroutines": g, "admitted": a, "burst": burst, "subnet": base.String()})
+				return
+			}
+		}
+	})
+	c.Ev.Eval(rounds)
+	c.Ev.Count("concurrent_first_contact_rounds", int64(rounds))
+	c.Ev.Count("concurrent_first_contact_admitted", admittedTotal)
+	c.Ev.Count("concurrent_first_contact_refused", refusedTotal)
+	c.Ev.Distinct("concurrent-first-contact", refusedTotal > 0)
 }
